@@ -407,7 +407,7 @@ class Gen(object):
         op["op"] = "insert"
         op["i"] = self.pick([0, 0, 1, 2, -1, 5])
         if self.fault() and self.chance(0.12):
-            op["i"] = self.pick(["x", 1.5, None])      # a position list.insert refuses
+            op["i"] = self.pick(["x", 1.5, None, 10 ** 30, -10 ** 30])   # positions list.insert refuses
         return op
 
     def g_extend(self):
@@ -528,7 +528,10 @@ class Gen(object):
         if x is None:
             return None
         # positions inside, at and beyond both ends of the sibling list
-        return {"op": "reorder", "x": self.ref(x), "i": self.pick([0, 1, 2, 3, -1, -2, -5, 7])}
+        i = self.pick([0, 1, 2, 3, -1, -2, -5, 7])
+        if self.fault() and self.chance(0.15):
+            i = self.pick([1.5, "x", None, 10 ** 30, -10 ** 30])
+        return {"op": "reorder", "x": self.ref(x), "i": i}
 
     def g_rename(self):
         x = self.pick(self.nodes())
